@@ -1,5 +1,15 @@
 import TypVerif.Drv.Proto
 import TypVerif.Drv.C13
+import TypVerif.Drv.C06
+import TypVerif.Drv.C16
+import TypVerif.Drv.C01
+import TypVerif.Drv.C02
+import TypVerif.Drv.C03
+import TypVerif.Drv.C04
+import TypVerif.Drv.C07
+import TypVerif.Drv.C12
+import TypVerif.Drv.C14
+import TypVerif.Drv.C15
 /-
 typdriver <Cxx> : reads annotated harness lines on stdin, prints one line per non-ok input line and a summary.
 Verdicts (DESIGN §4A):  cex  = implementation differs from the specification (property fails on this input)
@@ -9,7 +19,17 @@ Verdicts (DESIGN §4A):  cex  = implementation differs from the specification (p
 open TypVerif.Proto
 
 def judges : List (String × Judge) := [
-  ("C13", TypVerif.Drv.C13.judge)
+  ("C13", TypVerif.Drv.C13.judge),
+  ("C06", TypVerif.Drv.C06.judge),
+  ("C16", TypVerif.Drv.C16.judge),
+  ("C01", TypVerif.Drv.C01.judge),
+  ("C02", TypVerif.Drv.C02.judge),
+  ("C03", TypVerif.Drv.C03.judge),
+  ("C04", TypVerif.Drv.C04.judge),
+  ("C07", TypVerif.Drv.C07.judge),
+  ("C12", TypVerif.Drv.C12.judge),
+  ("C14", TypVerif.Drv.C14.judge),
+  ("C15", TypVerif.Drv.C15.judge)
 ]
 
 structure DAcc where
